@@ -8,6 +8,7 @@ import fcntl
 import glob
 import hashlib
 import json
+import re
 import os
 import shutil
 import subprocess
@@ -256,16 +257,51 @@ class AnchorError(Exception):
     pass
 
 
+def _moved_types(config, parsed):
+    """Types keep the name the specifications know them by.  A struct/enum whose definition path is new (not among the paths recorded
+    with the specifications, rules/expect2/adts_<config>.json) but which is re-exported (`use`) under a recorded path has only been
+    moved to another module: every occurrence of the new path is read as the recorded one.  -> [(new path, recorded path)]"""
+    p = os.path.join(VERIF, "rules", "expect2", "adts_%s.json" % config)
+    if not os.path.exists(p):
+        return []
+    known = json.load(open(p))
+    out = []
+    for cname, j in parsed.items():
+        kn = set(known.get(cname, []))
+        if not kn:
+            continue
+        rx = j.get("reexports") or []
+        real_paths = set(a["def"] for a in j.get("adts", []))
+        for r in sorted(real_paths):
+            if r in kn:
+                continue
+            al = sorted(set(x["alias"] for x in rx if x["real"] == r and x["alias"] in kn and x["alias"] not in real_paths))
+            if len(al) == 1:
+                out.append((r, al[0]))
+    # longest first, so that a moved module prefix never shadows a longer path
+    out.sort(key=lambda x: -len(x[0]))
+    return out
+
+
 class Facts:
     def __init__(self, config, root=None):
         self.config = config
         self.dir = facts_dir(config, root)
         self.crates = {}
+        texts = {}
         for p in sorted(glob.glob(os.path.join(self.dir, "*.json"))):
             cname = os.path.basename(p).split(".")[0]
-            if cname in self.crates:
+            if cname in texts:
                 continue
-            self.crates[cname] = Crate(json.load(open(p)))
+            texts[cname] = open(p).read()
+        parsed = {cname: json.loads(t) for cname, t in texts.items()}
+        self.moved = _moved_types(config, parsed)
+        for cname, t in texts.items():
+            if self.moved:
+                for real, alias in self.moved:
+                    t = re.sub(r"(?<![A-Za-z0-9_])%s(?![A-Za-z0-9_])" % re.escape(real), alias, t)
+                parsed[cname] = json.loads(t)
+            self.crates[cname] = Crate(parsed[cname])
         self.n_bodies = sum(len(c.fns) for c in self.crates.values())
 
     def crate(self, name):
